@@ -34,7 +34,21 @@ pub struct SchedStats {
 
 pub type SchedShared = Rc<RefCell<SchedStats>>;
 
+/// Prepares the next run of a multi-run session: returns the knobs of the next run (after
+/// installing its scenario in the run thread's TLS) or None when the session is over.
+pub struct NextRun {
+  pub seed: u64,
+  pub mode: Mode,
+  pub spurious_rate: u32,
+  pub record_trace: bool,
+  pub guide: Option<Vec<u16>>,
+}
+
+pub type NextFn = Box<dyn FnMut() -> Option<NextRun>>;
+
 pub struct SimScheduler {
+  /// multi-run session driver (None = exactly one run, configured at construction)
+  next: Option<NextFn>,
   rng: Rng,
   data: Rng,
   mode: Mode,
@@ -63,6 +77,7 @@ impl SimScheduler {
     }
     shared.borrow_mut().trace_hash = FNV_OFFSET;
     SimScheduler {
+      next: None,
       rng,
       data,
       mode,
@@ -75,6 +90,36 @@ impl SimScheduler {
       low_water: 1 << 20,
       guide: None,
     }
+  }
+
+  /// A scheduler for a session of many runs inside one `Runner::run` (so shuttle's continuation
+  /// pool, i.e. the coroutine stacks, is reused across runs). `next` is called before every run.
+  pub fn session(next: NextFn, shared: SchedShared) -> Self {
+    let mut s = SimScheduler::new(0, Mode::Uniform, 0, false, shared);
+    s.next = Some(next);
+    s
+  }
+
+  fn reconfigure(&mut self, n: NextRun) {
+    let mut root = Rng::new(n.seed);
+    self.rng = root.fork();
+    self.data = root.fork();
+    self.mode = n.mode;
+    self.spurious_rate = n.spurious_rate;
+    self.record_trace = n.record_trace;
+    self.prio.clear();
+    self.low_water = 1 << 20;
+    self.change_points.clear();
+    if let Mode::Pct { depth, est_steps } = n.mode {
+      for _ in 0..depth {
+        let cp = 1 + self.rng.below(est_steps.max(2) as u64);
+        self.change_points.push(cp);
+      }
+    }
+    self.guide = n.guide;
+    let mut st = self.shared.borrow_mut();
+    *st = SchedStats::default();
+    st.trace_hash = FNV_OFFSET;
   }
 
   pub fn with_guide(mut self, g: Vec<u16>) -> Self {
@@ -94,6 +139,15 @@ impl SimScheduler {
 
 impl Scheduler for SimScheduler {
   fn new_execution(&mut self) -> Option<Schedule> {
+    if let Some(next) = self.next.as_mut() {
+      return match next() {
+        Some(n) => {
+          self.reconfigure(n);
+          Some(Schedule::new(0))
+        }
+        None => None,
+      };
+    }
     if self.started {
       return None;
     }
